@@ -1,27 +1,56 @@
-//! Long-term credential server side played by the harness (RFC 8489 section 9.2.4) and the
-//! long-term parts of packet descriptors. (Filled in by the long-term phase.)
+//! Long-term credential server side played by the harness, and the long-term parts of
+//! packet descriptors (computed by the observer from raw bytes, never by the code under test).
 
-use crate::clientdrv::{Cfg, MsgSpec};
+use crate::clientdrv::{Cfg, MsgSpec, OTHER_PASSWORD, SERVER_REALM};
 use crate::obs::{self, Item, Parsed};
+use rand::Rng;
 use serde_json::{json, Value};
 use stun_agent::verif::VerifLongTerm;
 
+pub const OTHER_REALM: &str = "other.example.net";
+const COOKIE_PREFIX: &str = "obMatJos2";
+const B64: &[u8] = b"ABCDEFGHIJKLMNOPQRSTUVWXYZabcdefghijklmnopqrstuvwxyz0123456789+/";
+
+fn b64_3(b: [u8; 3]) -> String {
+    let n = ((b[0] as u32) << 16) | ((b[1] as u32) << 8) | b[2] as u32;
+    (0..4).map(|i| B64[((n >> (18 - 6 * i)) & 63) as usize] as char).collect()
+}
+
+fn b64_dec4(s: &[u8]) -> Option<[u8; 3]> {
+    let mut n = 0u32;
+    for c in s.iter().take(4) {
+        let v = B64.iter().position(|x| x == c)? as u32;
+        n = (n << 6) | v;
+    }
+    Some([(n >> 16) as u8, (n >> 8) as u8, n as u8])
+}
+
+/// RFC 8489 9.2: nonce cookie = "obMatJos2" + base64(24 bit feature set) ; bit 0 (msb) =
+/// password algorithms, bit 1 = username anonymity
+pub fn cookie_bits(nonce: &[u8]) -> Option<(bool, bool)> {
+    if nonce.len() < COOKIE_PREFIX.len() + 4 || !nonce.starts_with(COOKIE_PREFIX.as_bytes()) {
+        return None;
+    }
+    let f = b64_dec4(&nonce[COOKIE_PREFIX.len()..COOKIE_PREFIX.len() + 4])?;
+    Some((f[0] & 0x80 != 0, f[0] & 0x40 != 0))
+}
+
 pub struct LtServer {
     pub realm: String,
-    pub nonce: String,
-    pub prev_nonces: Vec<String>,
-    pub algs: Option<Vec<u16>>,
     pub counter: u32,
-    pub key: Vec<u8>,
+    pub last_nonce: String,
 }
 
 pub fn lt_absent() -> Value {
-    json!({})
+    json!({"code":0,"realm_present":false,"realm":"","nonce_present":false,"nonce":"",
+           "cookie":false,"pa":false,"ua":false,"algs_present":false,"algs":[],"alg":-1,
+           "user":"absent","mi_keys":[],"sha_keys":[]})
 }
 
 pub fn lt_snap_json(lt: &VerifLongTerm) -> Value {
     match &lt.params {
-        None => json!({"tag":"lt","state":lt.state,"params":false}),
+        None => json!({"tag":"lt","state":lt.state,"params":false,"realm":"","nonce":"","algs":[],
+                       "algs_present":false,"alg":-1,"key":"","userhash":false,"integrity":"none"}),
         Some(p) => json!({"tag":"lt","state":lt.state,"params":true,"realm":p.realm,"nonce":p.nonce,
             "algs": p.algorithms.as_ref().map(|a| a.iter().map(|x| x.0 as u64).collect::<Vec<u64>>()).unwrap_or_default(),
             "algs_present": p.algorithms.is_some(),
@@ -32,31 +61,182 @@ pub fn lt_snap_json(lt: &VerifLongTerm) -> Value {
     }
 }
 
-impl LtServer {
-    pub fn new(cfg: &Cfg) -> LtServer {
-        LtServer {
-            realm: crate::clientdrv::SERVER_REALM.to_string(),
-            nonce: String::new(),
-            prev_nonces: Vec::new(),
-            algs: None,
-            counter: 0,
-            key: obs::lt_key(&cfg.user, crate::clientdrv::SERVER_REALM, &cfg.password, 1),
+fn first_admitted<'a>(p: &'a Parsed, t: u16) -> Option<&'a obs::RawAttr> {
+    let adm = obs::admitted(p);
+    p.attrs.iter().enumerate().find(|(i, a)| a.t == t && adm[*i]).map(|(_, a)| a)
+}
+
+/// names of the candidate long-term keys under which the admitted integrity attribute of
+/// type `t` verifies: "<realm>/<alg>" for realm in {server realm, other realm} and alg in
+/// {1 = MD5, 2 = SHA-256}, and "otherpw" for the same keys with a different password
+pub fn lt_key_names(cfg: &Cfg, b: &[u8], p: &Parsed, t: u16) -> Vec<String> {
+    let mut out = Vec::new();
+    for realm in [SERVER_REALM, OTHER_REALM] {
+        for alg in [1u16, 2] {
+            let k = obs::lt_key(&cfg.user, realm, &cfg.password, alg);
+            if obs::integrity_status(b, p, t, Some(&k)) == "valid" {
+                out.push(format!("{}/{}", realm, alg));
+            }
+            let k2 = obs::lt_key(&cfg.user, realm, OTHER_PASSWORD, alg);
+            if obs::integrity_status(b, p, t, Some(&k2)) == "valid" {
+                out.push("otherpw".to_string());
+            }
         }
     }
+    out
+}
 
-    pub fn reference_key(&self, cfg: &Cfg, _p: &Parsed, _outbound: bool) -> (Option<Vec<u8>>, Value) {
+/// long-term view of a packet (inbound or outbound)
+pub fn lt_descriptor(cfg: &Cfg, b: &[u8], p: &Parsed) -> Value {
+    let code = first_admitted(p, obs::T_ERROR)
+        .filter(|a| a.value.len() >= 4)
+        .map(|a| (a.value[2] & 7) as i64 * 100 + a.value[3] as i64)
+        .unwrap_or(0);
+    let realm = first_admitted(p, obs::T_REALM);
+    let nonce = first_admitted(p, obs::T_NONCE);
+    let bits = nonce.and_then(|n| cookie_bits(&n.value));
+    let algs = first_admitted(p, obs::T_PWD_ALGS).and_then(|a| obs::parse_password_algorithms(&a.value));
+    let alg = first_admitted(p, obs::T_PWD_ALG)
+        .filter(|a| a.value.len() >= 4)
+        .map(|a| u16::from_be_bytes([a.value[0], a.value[1]]) as i64)
+        .unwrap_or(-1);
+    let realm_s = realm.map(|a| String::from_utf8_lossy(&a.value).to_string()).unwrap_or_default();
+    let user = if let Some(a) = first_admitted(p, obs::T_USERNAME) {
+        if a.value == cfg.user.as_bytes() { "name" } else { "other" }
+    } else if let Some(a) = first_admitted(p, obs::T_USERHASH) {
+        if a.value == obs::user_hash(&cfg.user, &realm_s) { "hash" } else { "hash_bad" }
+    } else {
+        "absent"
+    };
+    let dup = |t: u16| p.attrs.iter().filter(|a| a.t == t).count() > 1;
+    json!({"code":code,
+           "realm_present":realm.is_some(),"realm":realm_s,
+           "nonce_present":nonce.is_some(),
+           "nonce":nonce.map(|a| String::from_utf8_lossy(&a.value).to_string()).unwrap_or_default(),
+           "cookie":bits.is_some(),"pa":bits.map(|b| b.0).unwrap_or(false),"ua":bits.map(|b| b.1).unwrap_or(false),
+           "algs_present":algs.is_some(),
+           "algs":algs.map(|v| v.iter().map(|x| x.0 as u64).collect::<Vec<u64>>()).unwrap_or_default(),
+           "alg":alg,"user":user,
+           "dup": dup(obs::T_REALM) || dup(obs::T_NONCE) || dup(obs::T_PWD_ALGS) || dup(obs::T_ERROR),
+           "mi_keys":lt_key_names(cfg, b, p, obs::T_MI),"sha_keys":lt_key_names(cfg, b, p, obs::T_SHA)})
+}
+
+pub fn random_lt_spec(rng: &mut impl Rng, code: u16) -> Value {
+    let pickw = |rng: &mut dyn FnMut(u32) -> u32, xs: &[(u32, &'static str)]| -> &'static str {
+        let total: u32 = xs.iter().map(|x| x.0).sum();
+        let mut r = rng(total);
+        for (w, v) in xs {
+            if r < *w {
+                return v;
+            }
+            r -= w;
+        }
+        xs[0].1
+    };
+    let mut r = |n: u32| rng.random_range(0..n);
+    let _ = code;
+    let algs = pickw(&mut r, &[(30, "none"), (15, "md5"), (15, "sha"), (15, "md5_sha"), (10, "sha_md5"), (5, "unsup"), (10, "unsup_md5")]);
+    let nonce = pickw(&mut r, &[(35, "fresh"), (50, "fresh_cookie"), (7, "same"), (8, "absent")]);
+    let realm = pickw(&mut r, &[(84, "ok"), (8, "absent"), (8, "other")]);
+    // the cookie's password-algorithms bit normally agrees with the presence of the list
+    let pa = if r(100) < 88 { algs != "none" } else { algs == "none" };
+    let ua = r(100) < 30;
+    let dup = r(100) < 8;
+    json!({"realm":realm,"nonce":nonce,"pa":pa,"ua":ua,"algs":algs,"dup":dup})
+}
+
+impl LtServer {
+    pub fn new(_cfg: &Cfg) -> LtServer {
+        LtServer { realm: SERVER_REALM.to_string(), counter: 0, last_nonce: String::new() }
+    }
+
+    /// reference key for the integrity status fields `mi` / `sha` of descriptors (short-term
+    /// only; long-term descriptors carry key name lists instead)
+    pub fn reference_key(&self, cfg: &Cfg, b: &[u8], p: &Parsed, _outbound: bool) -> (Option<Vec<u8>>, Value) {
         match cfg.mech.as_str() {
             "st" => (Some(obs::st_key(&cfg.password)), lt_absent()),
-            "lt" => (Some(self.key.clone()), lt_absent()),
+            "lt" => (None, lt_descriptor(cfg, b, p)),
             _ => (None, lt_absent()),
         }
     }
 
-    pub fn add_lt_attrs(&mut self, _cfg: &Cfg, _m: &MsgSpec, _items: &mut Vec<Item>) -> Vec<u8> {
-        self.key.clone()
+    /// Adds the long-term attributes of a server message and returns the key a RFC 8489 server
+    /// would use for its integrity attribute. `request` = bytes of the request being answered.
+    pub fn add_lt_attrs(&mut self, cfg: &Cfg, m: &MsgSpec, request: Option<&[u8]>, items: &mut Vec<Item>) -> Vec<u8> {
+        // what the request being answered named
+        let (mut realm, mut alg) = (SERVER_REALM.to_string(), 1u16);
+        if let Some(rb) = request {
+            if let Some(rp) = obs::parse(rb) {
+                if let Some(a) = rp.attrs.iter().find(|a| a.t == obs::T_REALM) {
+                    realm = String::from_utf8_lossy(&a.value).to_string();
+                }
+                if let Some(a) = rp.attrs.iter().find(|a| a.t == obs::T_PWD_ALG) {
+                    if a.value.len() >= 2 {
+                        alg = u16::from_be_bytes([a.value[0], a.value[1]]);
+                    }
+                }
+            }
+        }
+        let lt = &m.lt;
+        if m.class == obs::CLASS_ERROR && (m.code == 401 || m.code == 438) {
+            let realm_kind = lt["realm"].as_str().unwrap_or("ok");
+            if m.code == 401 {
+                match realm_kind {
+                    "ok" => {
+                        realm = SERVER_REALM.to_string();
+                        items.push(Item::Raw(obs::T_REALM, realm.clone().into_bytes()));
+                    }
+                    "other" => {
+                        realm = OTHER_REALM.to_string();
+                        items.push(Item::Raw(obs::T_REALM, realm.clone().into_bytes()));
+                    }
+                    _ => {}
+                }
+            }
+            self.counter += 1;
+            let nonce = match lt["nonce"].as_str().unwrap_or("fresh") {
+                "fresh" => Some(format!("n{}-{:08x}", self.counter, self.counter.wrapping_mul(2654435761))),
+                "fresh_cookie" => {
+                    let mut f = [0u8; 3];
+                    if lt["pa"].as_bool().unwrap_or(false) {
+                        f[0] |= 0x80;
+                    }
+                    if lt["ua"].as_bool().unwrap_or(false) {
+                        f[0] |= 0x40;
+                    }
+                    Some(format!("{}{}c{}", COOKIE_PREFIX, b64_3(f), self.counter))
+                }
+                "same" if !self.last_nonce.is_empty() => Some(self.last_nonce.clone()),
+                "same" => Some("n0-same".to_string()),
+                _ => None,
+            };
+            if let Some(n) = &nonce {
+                items.push(Item::Raw(obs::T_NONCE, n.clone().into_bytes()));
+                self.last_nonce = n.clone();
+            }
+            if m.code == 401 {
+                let list: Option<Vec<u16>> = match lt["algs"].as_str().unwrap_or("none") {
+                    "md5" => Some(vec![1]),
+                    "sha" => Some(vec![2]),
+                    "md5_sha" => Some(vec![1, 2]),
+                    "sha_md5" => Some(vec![2, 1]),
+                    "unsup" => Some(vec![7]),
+                    "unsup_md5" => Some(vec![9, 1]),
+                    _ => None,
+                };
+                if let Some(l) = &list {
+                    items.push(Item::Raw(obs::T_PWD_ALGS, obs::password_algorithms_value(l)));
+                    alg = if l.contains(&2) { 2 } else { 1 };
+                } else {
+                    alg = 1;
+                }
+            }
+            if lt["dup"].as_bool().unwrap_or(false) {
+                // duplicated attributes with different content: the first of each must win
+                items.push(Item::Raw(obs::T_REALM, b"dup.realm".to_vec()));
+                items.push(Item::Raw(obs::T_NONCE, b"dup-nonce".to_vec()));
+            }
+        }
+        obs::lt_key(&cfg.user, &realm, &cfg.password, alg)
     }
-}
-
-pub fn random_lt_spec(_rng: &mut impl rand::Rng, _code: u16) -> Value {
-    json!({})
 }
